@@ -247,6 +247,8 @@ def indep_write(store, g, enc):
         put(root, "raw", np.arange(6, dtype=np.uint8).reshape(2, 3))
         root.require_group("segmentation")
     meta = [("directed", enc["directed"]), ("node_props_metadata", mds["nodes"]), ("edge_props_metadata", mds["edges"])]
+    if enc.get("axes"):
+        meta.append(("axes", [{"name": a} for a in enc["axes"]]))
     if not enc["omit_version"]:
         meta.append(("geff_version", rng.choice(["1.0", "1.0.0", "0.5.1.dev3+gabc"])))
     if enc["extra_meta"]:
@@ -379,6 +381,278 @@ def dir3_run(case):
     return obs
 
 
+# ----------------------------------------------------------------- graphs seen through a backend's adapter
+def loose_equal(value, cell):
+    """the value a graph library holds for one element equals the cell the store denotes: same shape, same numbers /
+    strings / booleans (a library may hold a Python scalar, a list or an array; the numpy dtype is not part of it;
+    NaN equals NaN)"""
+    a = np.asarray(value)
+    b = R.dec_arr({"dtype": cell["dtype"], "shape": cell["shape"], "flat": cell["flat"]})
+    if a.dtype == object:
+        return False
+    if a.size == 0 and b.size == 0:
+        return True          # a list cannot show the extents of an empty array ((0, 2) -> [])
+    if a.shape != b.shape:
+        return False
+    if b.dtype.kind in "UT" or a.dtype.kind in "UT":
+        return a.dtype.kind in "UT" and b.dtype.kind in "UT" and a.tolist() == b.tolist()
+    if b.dtype.kind == "b" or a.dtype.kind == "b":
+        return a.dtype.kind == b.dtype.kind and a.tolist() == b.tolist()
+    if a.dtype.kind in "iu" and b.dtype.kind in "iu":
+        return a.tolist() == b.tolist()
+    return bool(np.array_equal(a.astype(np.float64), b.astype(np.float64), equal_nan=True))
+
+
+def simple_graph(want):
+    """node ids unique, no edge twice (in either direction), no self loop: what every graph library can hold"""
+    nodes = [str(x) for x in want["nodes"]]
+    if len(set(nodes)) != len(nodes):
+        return False
+    seen = set()
+    for u, v in want["edges"]:
+        u, v = str(u), str(v)
+        if u == v or (u, v) in seen or (v, u) in seen:
+            return False
+        seen.add((u, v))
+    return True
+
+
+def compare_adapter(adapter, md, want, skip_missing=False):
+    """the graph a backend's adapter shows == the graph `want` (JSON as produced by `denote` / graph_of).
+    Returns None or a description of the first difference."""
+    nodes = [int(x) for x in adapter.get_node_ids()]
+    wn = [int(x) for x in want["nodes"]]
+    if sorted(nodes) != sorted(wn):
+        return f"node ids {sorted(nodes)[:8]}... != {sorted(wn)[:8]}..."
+    edges = [(int(u), int(v)) for u, v in adapter.get_edge_ids()]
+    we = [(int(u), int(v)) for u, v in want["edges"]]
+    norm = (lambda e: e) if want["directed"] else (lambda e: tuple(sorted(e)))
+    if sorted(map(norm, edges)) != sorted(map(norm, we)):
+        return f"edges {sorted(map(norm, edges))[:6]} != {sorted(map(norm, we))[:6]}"
+    for name, _kind, rows in want["node_props"]:
+        for node, cell in zip(wn, rows):
+            if skip_missing and cell is None:
+                continue
+            has = adapter.has_node_prop(name, node, md)
+            if has != (cell is not None):
+                return f"node {node} property {name!r}: present={has}, store says present={cell is not None}"
+            if has and not loose_equal(adapter.get_node_prop(name, node, md), cell):
+                return f"node {node} property {name!r}: {adapter.get_node_prop(name, node, md)!r} != {cell}"
+    for name, _kind, rows in want["edge_props"]:
+        for edge, cell in zip(we, rows):
+            if skip_missing and cell is None:
+                continue
+            has = adapter.has_edge_prop(name, edge, md)
+            if has != (cell is not None):
+                return f"edge {edge} property {name!r}: present={has}, store says present={cell is not None}"
+            if has and not loose_equal(adapter.get_edge_prop(name, edge, md), cell):
+                return f"edge {edge} property {name!r}: {adapter.get_edge_prop(name, edge, md)!r} != {cell}"
+    return None
+
+
+def observe_backend(store, backend, want, **kw):
+    """geff.read(store, backend=...) and the graph its adapter shows, compared with `want`"""
+    import geff
+    from geff._graph_libs._api_wrapper import get_backend
+
+    try:
+        graph, md = geff.read(store, backend=backend, **kw)
+        diff = compare_adapter(get_backend(backend).graph_adapter(graph), md, want)
+    except BaseException as e:  # noqa: BLE001
+        return {"outcome": C01.exc_class(e), "msg": f"{type(e).__name__}: {e}"[:300]}
+    return {"outcome": "ok", "diff": diff}
+
+
+# spatial-graph generates and compiles C++ per dtype signature (~12 s each, cached under ~/.cache/witty): two fixed
+# signatures, the same ones harness/corr/C03.py uses (so the cache is shared)
+SG_SCHEMAS = [
+    # (axes, node id dtype, node attrs, edge attrs)
+    (["y", "x"], "uint64", {"score": "float32"}, {"w": "int16"}),
+    (["t", "y", "x"], "uint64", {"lab": "int64"}, {"w": "float64"}),
+]
+
+
+def sg_warm():
+    """build / load the spatial-graph classes of the signatures used, before forking"""
+    import os
+
+    import spatial_graph as sg
+
+    saved = os.dup(2)
+    devnull = os.open(os.devnull, os.O_WRONLY)      # the C++ compiler's warnings
+    os.dup2(devnull, 2)
+    try:
+        for axes, nd, na, ea in SG_SCHEMAS:
+            for directed in (True, False):
+                sg.create_graph(ndims=len(axes), node_dtype=nd, node_attr_dtypes={**na, "position": f"float64[{len(axes)}]"},
+                                edge_attr_dtypes=dict(ea), position_attr="position", directed=directed)
+    finally:
+        os.dup2(saved, 2)
+        os.close(devnull)
+        os.close(saved)
+
+
+def sg_case(rng):
+    """a graph in the domain of the spatial-graph backend: axes (1-D float64 node properties), numeric 1-D properties
+    with identifier names, no missing values, a simple graph with at least one edge, node ids in arbitrary order"""
+    axes, idt, na, ea = rng.choice(SG_SCHEMAS)
+    n = rng.randint(2, 9)
+    nodes = list(range(n))
+    mode = rng.choice(["shuffle", "descending", "sparse", "swap"])
+    if mode == "descending":
+        nodes.reverse()
+    elif mode == "swap":
+        nodes[0], nodes[1] = nodes[1], nodes[0]
+    else:
+        rng.shuffle(nodes)
+        if mode == "sparse":
+            nodes = [x * 3 + 2 for x in nodes]
+    seen, edges = set(), []
+    for _ in range(rng.randint(1, 2 * n)):
+        u, v = rng.sample(nodes, 2)
+        if (u, v) not in seen and (v, u) not in seen:
+            seen.add((u, v))
+            edges.append([u, v])
+
+    def num(k, name, dt):
+        if dt.startswith("float"):
+            arr = np.array([rng.choice([0.0, -0.0, 1.5, -2.25, 0.1, 1e6]) if rng.random() < 0.4 else rng.uniform(-100, 100)
+                            for _ in range(k)], dtype=dt)
+            return [name, {"values": R.enc_arr(arr), "missing": None}]
+        return [name, {"values": {"dtype": dt, "shape": [k], "flat": R.rand_scalar_tokens(rng, dt, k)}, "missing": None}]
+    nps = [num(n, a, "float64") for a in axes] + [num(n, nm, dt) for nm, dt in na.items()]
+    eps = [num(len(edges), nm, dt) for nm, dt in ea.items()]
+    g = {"node_ids": {"dtype": idt, "shape": [n], "flat": nodes},
+         "edge_ids": {"dtype": idt, "shape": [len(edges), 2], "flat": [x for e in edges for x in e]},
+         "node_props": nps, "edge_props": eps}
+    return g, axes
+
+
+# ----------------------------------------------------------------- write histories through the graph-library writers
+def history_run(h):
+    """several graphs written one after the other through geff.write (networkx / rustworkx) or write_dicts into
+    fresh targets, all with ONE GeffMetadata object; after each write the store must validate and — decoded by the
+    specification-only decoder — denote the graph that was written"""
+    import geff
+    import geff_spec
+    import networkx as nx
+    import rustworkx as rx
+    from geff.core_io import write_dicts
+    from geff.validate.structure import validate_structure
+
+    directed = h["directed"]
+    shared = geff_spec.GeffMetadata(geff_version="1.0.0", directed=directed, node_props_metadata={}, edge_props_metadata={})
+    out = []
+    for k, st in enumerate(h["steps"]):
+        nodes, edges = st["nodes"], st["edges"]          # nodes: [[id, {attr: value}]], edges: [[u, v, {attr: value}]]
+        want = {"directed": directed, "nodes": [n for n, _ in nodes], "edges": [[u, v] for u, v, _ in edges],
+                "node_props": [[nm, "dense", [None if nm not in d else cell_json(np.asarray(d[nm])) for _, d in nodes]] for nm in st["node_names"]],
+                "edge_props": [[nm, "dense", [None if nm not in d else cell_json(np.asarray(d[nm])) for _, _, d in edges]] for nm in st["edge_names"]]}
+        ob = {"step": k, "writer": st["writer"], "write": None}
+        out.append(ob)
+        with R.StoreCtx("mem") as store:
+            try:
+                if st["writer"] == "networkx":
+                    G = nx.DiGraph() if directed else nx.Graph()
+                    G.add_nodes_from((n, dict(d)) for n, d in nodes)
+                    G.add_edges_from((u, v, dict(d)) for u, v, d in edges)
+                    geff.write(G, store, metadata=shared, zarr_format=st["fmt"], structure_validation=st["validate"])
+                elif st["writer"] == "rustworkx":
+                    G = rx.PyDiGraph() if directed else rx.PyGraph()
+                    idx = G.add_nodes_from([dict(d) for _, d in nodes])
+                    rxid = {n: i for (n, _), i in zip(nodes, idx)}
+                    G.add_edges_from([(rxid[u], rxid[v], dict(d)) for u, v, d in edges])
+                    geff.write(G, store, metadata=shared, zarr_format=st["fmt"], structure_validation=st["validate"],
+                               node_id_dict={i: n for n, i in rxid.items()})
+                else:
+                    write_dicts(store, [(n, dict(d)) for n, d in nodes], [((u, v), dict(d)) for u, v, d in edges],
+                                st["node_names"], st["edge_names"], shared, zarr_format=st["fmt"],
+                                structure_validation=st["validate"])
+                ob["write"] = "ok"
+            except BaseException as e:  # noqa: BLE001
+                ob["write"] = C01.exc_class(e)
+                ob["msg"] = f"{type(e).__name__}: {e}"[:300]
+                break
+            ob["dump"] = R.dump_store(store)
+            try:
+                validate_structure(store)
+                ob["validate"] = "ok"
+            except BaseException as e:  # noqa: BLE001
+                ob["validate"] = C01.exc_class(e)
+                ob["msg"] = f"{type(e).__name__}: {e}"[:300]
+            try:
+                dec = py_decode(store)
+                ob["py_decode"] = canon_graph(dec)
+                ob["diff"] = compare_graphs(dec, want)
+            except BaseException as e:  # noqa: BLE001
+                ob["py_decode"] = None
+                ob["diff"] = f"the written store cannot be decoded by following the specification: {type(e).__name__}: {e}"[:300]
+            if ob.get("validate") != "ok" or ob["diff"]:
+                break
+    return out
+
+
+def compare_graphs(dec, want):
+    """decoded store (graph JSON) vs the graph handed to a graph-library writer (values compared loosely)"""
+    dn = [int(x) for x in dec["nodes"]]
+    wn = [int(x) for x in want["nodes"]]
+    if dec["directed"] != want["directed"]:
+        return "directedness differs"
+    if sorted(dn) != sorted(wn):
+        return f"node ids {sorted(dn)} != {sorted(wn)}"
+    norm = (lambda e: e) if want["directed"] else (lambda e: tuple(sorted(e)))
+    de = [norm((int(u), int(v))) for u, v in dec["edges"]]
+    we = [norm((int(u), int(v))) for u, v in want["edges"]]
+    if sorted(de) != sorted(we):
+        return f"edges {sorted(de)} != {sorted(we)}"
+    for key, dk, wk in (("node_props", dn, wn), ("edge_props", de, we)):
+        dp = {nm: dict(zip(dk, rows)) for nm, _k, rows in dec[key]}
+        wp = {nm: dict(zip(wk, rows)) for nm, _k, rows in want[key]}
+        if sorted(dp) != sorted(wp):
+            return f"{key}: the store declares/holds {sorted(dp)}, the graph has {sorted(wp)}"
+        for nm in wp:
+            for el, cell in wp[nm].items():
+                got = dp[nm][el]
+                if (got is None) != (cell is None):
+                    return f"{key} {nm!r} of {el}: missing={got is None}, graph says missing={cell is None}"
+                if cell is not None and not loose_equal(R.dec_arr(got), cell):
+                    return f"{key} {nm!r} of {el}: {got} != {cell}"
+    return None
+
+
+def history_cases(rng, n):
+    out = []
+    pool = ["a", "b", "score", "label", "pos"]
+
+    def value(name, i):
+        return {"a": i * 3 - 4, "b": float(i) / 4 - 1.5, "score": [0.5 * i, -1.0, 2.0], "label": f"cell-{i}", "pos": [i, i + 1]}[name]
+    for k in range(n):
+        directed = rng.random() < 0.6
+        steps = []
+        for j in range(rng.choice([2, 2, 3])):
+            nn = rng.choice([0, 1, 3, 5]) if j else rng.choice([2, 4, 6])
+            ids = rng.sample(range(0, 40), nn)
+            n_names = rng.sample(pool, rng.randint(0, 3) if j else rng.randint(2, 4))
+            e_names = rng.sample(pool, rng.randint(0, 2))
+            sparse = rng.random() < 0.4
+            nodes = [[x, {nm: value(nm, x) for nm in n_names if not (sparse and nm != n_names[0] and rng.random() < 0.3)}] for x in ids]
+            seen, edges = set(), []
+            for _ in range(rng.randint(0, nn)):
+                if nn < 2:
+                    break
+                u, v = rng.sample(ids, 2)
+                if (u, v) not in seen and (v, u) not in seen:
+                    seen.add((u, v))
+                    edges.append([u, v, {nm: value(nm, u + v) for nm in e_names}])
+            # only names that some element carries are properties of the graph
+            n_used = [nm for nm in n_names if any(nm in d for _, d in nodes)]
+            e_used = [nm for nm in e_names if edges]
+            steps.append({"writer": rng.choice(["networkx", "rustworkx", "write_dicts"]), "nodes": nodes, "edges": edges,
+                          "node_names": n_used, "edge_names": e_used, "fmt": rng.choice([2, 3]), "validate": rng.random() < 0.7})
+        out.append({"directed": directed, "steps": steps, "origin": "history", "direction": "history"})
+    return out
+
+
 # ----------------------------------------------------------------- implementation observations
 def observe_read(store, validate):
     from geff.core_io import read_to_memory
@@ -446,6 +720,14 @@ def dir2_run(case):
             obs["py_decode_err"] = f"{type(e).__name__}: {e}"[:300]
         obs["read_validated"] = observe_read(store, True)
         obs["read_raw"] = observe_read(store, False)
+        # through geff.read with every graph-library backend whose domain the graph is in
+        obs["backends"] = {}
+        want = obs["want"]
+        if obs["read_validated"]["outcome"] == "ok" and simple_graph(want):
+            for backend in ("networkx", "rustworkx"):
+                obs["backends"][backend] = observe_backend(store, backend, want)
+            if case.get("sg"):
+                obs["backends"]["spatial-graph"] = observe_backend(store, "spatial-graph", want)
     return obs
 
 
@@ -514,7 +796,13 @@ def run(ck: common.Check):
                "K random specification-conformant encodings by an independent zarr-only writer (chunks, compressor, format, "
                "missing omitted/all-false, dummy values, optional groups absent/empty, omitted/shuffled metadata, foreign "
                "attrs/siblings, var-length sections out of order with gaps; string encoding and offset-table dtype counted "
-               "separately), read by read_to_memory with validation on and off. non-trivial = at least one node or property")
+               "separately), read by read_to_memory with validation on and off AND through geff.read with every graph-library "
+               "backend (networkx, rustworkx on every simple graph; spatial-graph on a stream in its domain), the graph each "
+               "adapter shows compared with the denoted graph; node ids in arbitrary order (permutations of 0..N-1, descending, "
+               "interleaved, sparse); node and edge properties sharing names (same/different dtype, fixed/var-length). "
+               "Histories: 2-3 graphs written through geff.write (networkx, rustworkx) / write_dicts with ONE GeffMetadata "
+               "object, every written store validated and decoded. Direction 3: stores with one injected defect. "
+               "non-trivial = at least one node or property")
     check_document_names(ck)
     base = [c for c in C01.rotate_layouts(C01.exhaustive(ck.quick)) + C01.special_cases() if C01.wf_case(c)]
     nrand = 500 if ck.quick else 2000
@@ -532,13 +820,16 @@ def run(ck: common.Check):
         if i % (25 if ck.quick else 10) == 0:
             d1.append({**c, "fmt": 2 + i % 2, "store": ["local", "path", "str"][i % 3]})
     d1 = [c for c in corpus if c.get("direction") == 1] + d1
+    import time as _t
+    _t0 = _t.time()
     obs1 = common.pmap(dir1_run, d1, chunksize=8)
+    ck.extra["t_dir1"] = round(_t.time() - _t0, 1)
 
     # ---------------- direction 2
     k = 2 if ck.quick else 3
     d2 = [c for c in corpus if c.get("direction") == 2]
     for i, c in enumerate(base):
-        if ck.quick and c["origin"].startswith("exh") and i % 3:
+        if ck.quick and c["origin"].startswith("exh") and i % 4:
             continue
         # "variable length arrays cannot be of dtype string" (PropMetadata): an independent writer has no such property
         g2 = {**c["g"], **{key: [[nm, p] for nm, p in (c["g"][key] or [])
@@ -546,7 +837,22 @@ def run(ck: common.Check):
                            for key in ("node_props", "edge_props")}}
         for _ in range(k):
             d2.append({"g": g2, "enc": draw_encoding(ck.rng, g2), "origin": c["origin"], "direction": 2})
+    # graphs in the domain of the spatial-graph backend (axes, numeric fixed-shape properties, no missing values)
+    sg_warm()
+    for _ in range(120 if ck.quick else 1200):
+        g_sg, axes = sg_case(ck.rng)
+        enc = draw_encoding(ck.rng, g_sg)
+        enc.update(axes=axes, strings="fixed", store="mem", missing_all_false=False)
+        d2.append({"g": g_sg, "enc": enc, "origin": "sg-domain", "direction": 2, "sg": True})
+    _t0 = _t.time()
     obs2 = common.pmap(dir2_run, d2, chunksize=8)
+    ck.extra["t_dir2"] = round(_t.time() - _t0, 1)
+
+    # ---------------- direction 1, histories through geff.write / write_dicts sharing one metadata object
+    hists = [c for c in corpus if c.get("direction") == "history"] + history_cases(ck.rng, 150 if ck.quick else 1500)
+    _t0 = _t.time()
+    hobs = common.pmap(history_run, hists, chunksize=4)
+    ck.extra["t_hist"] = round(_t.time() - _t0, 1)
 
     # ---------------- direction 3: non-conformant stores (reader error branch; correspondence only)
     d3 = []
@@ -559,7 +865,10 @@ def run(ck: common.Check):
         enc = draw_encoding(ck.rng, g2)
         enc.update(store="mem", strings="fixed", vlen_values_dtype="uint64")
         d3.append({"g": g2, "enc": enc, "defect": defect, "origin": c["origin"], "direction": 3})
+    _t0 = _t.time()
     obs3 = common.pmap(dir3_run, d3, chunksize=8)
+    ck.extra["t_dir3"] = round(_t.time() - _t0, 1)
+    _t0 = _t.time()
 
     # ---------------- the Lean side
     drv = ck.driver()
@@ -577,7 +886,12 @@ def run(ck: common.Check):
             reqs.append({"op": "denote", "store": R.strip_width(ob["dump"])})
             reqs.append({"op": "read", "store": R.strip_width(ob["dump"])})
             reqs.append({"op": "read", "validate": True, "store": R.strip_width(ob["dump"])})
+    for obs in hobs:
+        for ob in obs:
+            if ob.get("dump") is not None:
+                reqs.append({"op": "denote", "store": R.strip_width(ob["dump"])})
     answers = drv.ask(reqs)
+    ck.extra["t_lean"] = round(_t.time() - _t0, 1)
     if answers is None:
         ck.broken.append({"what": "driver Drivers/C02.lean", "detail": drv.broken or getattr(drv, "build_log", "")})
     ai = 0
@@ -650,6 +964,15 @@ def run(ck: common.Check):
                 ck.fail("C02:reader-returns-a-different-graph",
                         f"read_to_memory ({label}) returned a graph different from the one the store denotes", c,
                         R.strip_width(rd["graph"]), want)
+        # the graph as every graph-library backend shows it
+        for backend, bo in ob.get("backends", {}).items():
+            ck.histogram[f"d2-backend:{backend}:{bo['outcome']}"] = ck.histogram.get(f"d2-backend:{backend}:{bo['outcome']}", 0) + 1
+            if bo["outcome"] != "ok":
+                ck.fail(f"C02:backend-{backend}-rejects-conformant", f"geff.read(backend={backend!r}) raised on a specification-conformant "
+                        f"store: {bo.get('msg')}", c, bo["outcome"], "ok")
+            elif bo["diff"]:
+                ck.fail(f"C02:backend-{backend}-shows-a-different-graph", f"geff.read(backend={backend!r}) shows a graph different from "
+                        f"the one the store denotes: {bo['diff']}", c, bo["diff"], "the denoted graph")
         # model reader vs real reader (validation off; the validator is C04's model)
         if lean_r is not None:
             rd = ob["read_raw"]
@@ -696,6 +1019,30 @@ def run(ck: common.Check):
         if conf and rd["outcome"] != "ok":
             ck.fail("C02:reader-rejects-conformant", f"defect {c['defect']} leaves the store conformant but read_to_memory raised "
                     f"{rd['outcome']}: {rd.get('msg')}", c, rd["outcome"], "ok")
+    # ---------------- history verdicts
+    for h, obs in zip(hists, hobs):
+        last = obs[-1]
+        good = last["write"] == "ok" and last.get("validate") == "ok" and not last.get("diff")
+        ck.case(h, f"history:{len(h['steps'])}-steps:{last['writer']}:" + ("ok" if good else f"step{last['step']}-fails"), nontrivial=True)
+        for ob in obs:
+            if ob.get("dump") is None:
+                continue
+            if answers is not None:
+                a = answers[ai]
+                ai += 1
+                if "err" in a:
+                    ck.corr_broken("C02:driver-denote", h, None, a)
+                elif canon_graph(a["graph"]) != R.strip_width(ob.get("py_decode")):
+                    ck.corr_broken("C02:lean-decoder-vs-python-decoder(history)", h, R.strip_width(ob.get("py_decode")), canon_graph(a["graph"]))
+        if good:
+            continue
+        key = "C02:history-shared-metadata" if last["step"] > 0 else "C02:graph-writer-output-does-not-denote-the-graph"
+        what = (f"{len(h['steps'])} graphs written through geff.write/write_dicts with one GeffMetadata object: step {last['step']} "
+                f"({last['writer']}, structure_validation={h['steps'][last['step']]['validate']}): "
+                + (f"the write raised {last['write']}: {last.get('msg')}" if last["write"] != "ok" else
+                   f"validate_structure rejects the written store: {last.get('msg')}" if last.get("validate") != "ok" else last["diff"]))
+        ck.fail(key, what, h, last.get("diff") or last.get("msg"), "each written store validates and denotes the graph that was written")
+    ck.extra["histories"] = len(hists)
     ck.extra["direction3_cases"] = n3
     ck.extra["direction1_cases"] = len(d1)
     ck.extra["direction2_cases"] = len(d2)
@@ -711,6 +1058,13 @@ def run(ck: common.Check):
 
 def replay(rp):
     c = rp["case"]
+    if c.get("direction") == "history":
+        obs = history_run(c)
+        last = obs[-1]
+        ok = last["write"] == "ok" and last.get("validate") == "ok" and not last.get("diff")
+        print(json.dumps([{k: v for k, v in o.items() if k not in ("dump", "py_decode")} for o in obs], ensure_ascii=False, default=str))
+        print("REPLAY: property holds on this input" if ok else "REPLAY: property FAILS on this input")
+        return 0 if ok else 1
     if c.get("dir") == 1 or c.get("direction") == 1:
         ob = dir1_run(c)
         ok = ob["write"] == "ok" and R.strip_width(ob.get("py_decode")) == R.strip_width(ob["want"]) and ob.get("validate") == "ok"
@@ -727,6 +1081,9 @@ def replay(rp):
             good = rd["outcome"] == "ok" and R.strip_width(rd["graph"]) == want
             res[key] = {"outcome": rd["outcome"], "msg": rd.get("msg"), "graph_equals_denotation": good}
             ok = ok and good
+        for backend, bo in ob.get("backends", {}).items():
+            res["backend:" + backend] = bo
+            ok = ok and bo["outcome"] == "ok" and not bo["diff"]
         print(json.dumps(res, ensure_ascii=False))
     print("REPLAY: property holds on this input" if ok else "REPLAY: property FAILS on this input")
     return 0 if ok else 1
